@@ -2,12 +2,18 @@
 
 Correspondence + direct oracle.  For every generated history the REAL storage (FileStorage with and
 without blob_dir under the recording/fault-injecting VFS, MappingStorage, BlobStorage(MappingStorage),
+BlobStorage(FileStorage) — the wrapper over an undo-capable storage, with undo victims —,
 DemoStorage(base, changes in {MappingStorage, FileStorage})) is driven through committed
 transactions and *victim* transactions.  A victim is first run once to count its raw file
 operations, then re-run once per fault index k (and with partial writes), and once per logical
 failure kind (abort after begin / after each store / after vote = a foreign participant's failing
 vote, over-long user / description / extension, conflict, quota, calls with a foreign transaction
 at every phase, a failing second resource manager through transaction.commit() on a Connection).
+
+A further fault family hits the ABORT ITSELF (the truncate of an abort after a vote, the truncate of the
+vote's except path after a failed write, the removal of a blob file): nothing can be restored then, the
+oracle is "blocks no one" — the call raises, every commit lock is free, the next transaction begins,
+commits and is readable through a newly opened reader handle.
 
 Direct oracle (independent of the Lean model): everything observable BEFORE the victim began equals
 everything observable AFTER the mandated tpc_abort — directory bytes, every query answer, the
@@ -35,7 +41,7 @@ BASE_T0 = 0x03A0000000000000     # tids of a demo storage's base
 NEXT_OID = 900                   # oid written by the "next transaction" probe
 FOREIGN = 999999                 # model id of the foreign transaction
 TIMEOUT = 8.0
-KINDS = ['file', 'fileblob', 'mapping', 'blobmapping', 'demofile', 'demomapping']
+KINDS = ['file', 'fileblob', 'mapping', 'blobmapping', 'demofile', 'demomapping', 'blobfile']
 
 
 def p64(n):
@@ -88,6 +94,11 @@ class Env:
         self.rec = vfs.Recorder(root)
         self.cm = vfs.install(self.rec)
         self.cm.__enter__()
+        # ZODB.blob binds `remove_committed = os.remove` at import time, out of the VFS's reach: route it
+        # through os.remove as it is NOW (the recording one), for the lifetime of this environment
+        self.blobmod = sys.modules.get('ZODB.blob') or __import__('ZODB.blob').blob
+        self.saved_remove = self.blobmod.remove_committed
+        self.blobmod.remove_committed = lambda path: os.remove(path)
         self.fs = None            # the FileStorage whose files live in root (if any)
         self.blobdir = None
         self.demo = None
@@ -98,6 +109,11 @@ class Env:
         elif kind == 'fileblob':
             self.blobdir = os.path.join(root, 'blobs')
             self.st = self.fs = FileStorage(fsname, quota=quota, blob_dir=self.blobdir)
+        elif kind == 'blobfile':
+            # the BlobStorage WRAPPER over an undo-capable storage without blob support of its own
+            self.blobdir = os.path.join(root, 'blobs')
+            self.fs = FileStorage(fsname, quota=quota)
+            self.st = BlobStorage(self.blobdir, self.fs)
         elif kind == 'mapping':
             self.st = MappingStorage()
         elif kind == 'blobmapping':
@@ -132,11 +148,13 @@ class Env:
         self.alltids = []
         self.oids = set(o for o, _ in self.base)
         self.dead = False
+        self.last_user_tid = None  # newest committed transaction that is not a lock probe (undo target)
 
     def model_reset(self):
         q = 'none' if self.quota is None else str(self.quota)
         b = ','.join('%d:%d' % (o, t) for o, t in self.base) or '-'
-        return {'file': 'reset file ' + q, 'fileblob': 'reset file ' + q, 'mapping': 'reset mapping',
+        return {'file': 'reset file ' + q, 'fileblob': 'reset file ' + q, 'blobfile': 'reset file ' + q,
+                'mapping': 'reset mapping',
                 'blobmapping': 'reset mapping', 'demofile': 'reset demo-file %s %s' % (q, b),
                 'demomapping': 'reset demo-mapping ' + b}[self.kind]
 
@@ -146,6 +164,7 @@ class Env:
                 self.st.close()
         except Exception:
             pass
+        self.blobmod.remove_committed = self.saved_remove
         self.cm.__exit__(None, None, None)
 
     # ---- observations -------------------------------------------------------------------
@@ -247,8 +266,8 @@ class Env:
         else:
             m['ltid'] = u64(i._ltid)
             m['ndata'] = len(i._data)
-        if self.kind == 'blobmapping':
-            m['dirty'] = list(self.st.dirty_oids)
+        if self.kind in ('blobmapping', 'blobfile'):
+            m['wrapper_dirty'] = list(self.st.dirty_oids)
         if self.demo is not None:
             m['demo_txn_none'] = self.demo._transaction is None
             m['demo_lock_free'] = not self.demo._commit_lock.locked()
@@ -367,6 +386,9 @@ class CallbackError(RuntimeError):
     """raised by the callback handed to tpc_finish (failure kind `finishcb`)"""
 
 
+KNOWN_OPEN = []      # signature patterns of open known findings (filled in main from known_findings.json)
+
+
 class Runner:
     """executes the steps of one case on the real storage, builds the parallel model lines with the
     outputs the real run produced, applies the direct oracle"""
@@ -381,11 +403,15 @@ class Runner:
         self.stop_at_first = stop_at_first
         self.env = None
         self.scen = []           # (canonical scenario, non-trivial?) for the evidence counters
+        self.mute = False
+        self.known_hits = []
 
     def count(self, k, n=1):
         self.stats[k] = self.stats.get(k, 0) + n
 
     def emit(self, line, expected=None, label=''):
+        if self.mute:
+            return          # the model does not follow the storage here (real-code oracle only)
         self.lines.append((line, expected, '%s#%d' % (label, len(self.executed) - 1)))
 
     # one API call on the real storage; returns (out, data-class, fault fired)
@@ -481,6 +507,8 @@ class Runner:
             env.oids.add(oid)
         env.alltids.append(tid)
         self.last_commit = (tid, stored)
+        if label != 'next':
+            env.last_user_tid = tid
         return True
 
     def cleanup_blob_tmp(self, env):
@@ -515,6 +543,15 @@ class Runner:
             ser = env.serial(oid, skind)
             return self.call(env, 'delete', lambda: st.deleteObject(p64(oid), p64(ser), obj),
                              'delete %d %d %d' % (mt, oid, ser), fault_k=fault_k, label=label)
+        if op[0] == 'undo':
+            # undo of the newest committed user transaction (C06 owns undo itself; here only its place in
+            # a two-phase commit that does not finish) — no model line: the model sees begin/vote/abort
+            from base64 import encodebytes
+            target = env.last_user_tid
+            if target is None:
+                return dict(out='ok', evs=[], fired=[])
+            tidb = encodebytes(p64(target)).rstrip()
+            return self.call(env, 'undo', lambda: st.undo(tidb, obj), None, label=label)
         raise InfraError('bad op %r' % (op,))
 
     # ---- idle-point checks --------------------------------------------------------------
@@ -522,6 +559,13 @@ class Runner:
         self.emit('obs', env.obs_string(), label)
 
     def violation(self, sig, what):
+        import re
+        if any(re.fullmatch(k, sig) for k in KNOWN_OPEN):
+            # a listed open finding: reported (KNOWN-FINDING) but the history goes on, so that it does not
+            # shadow anything else
+            self.known_hits.append((sig, what, len(self.executed) - 1))
+            self.mute = True     # what the finding left behind is not in the model: real-code oracle only from here
+            return
         self.violations.append((sig, what, len(self.executed) - 1))
 
     @staticmethod
@@ -546,7 +590,7 @@ class Runner:
         import contextlib
         out = []
         if env.fs is not None:
-            depth = max(depth, min(10, self.pool_size(env) + 1))
+            depth = max(depth, min(64, self.pool_size(env) + 1))
         with contextlib.ExitStack() as stack:
             for _ in range(depth if env.fs is not None else 1):
                 out.append(self.load1(env, oid))
@@ -565,7 +609,7 @@ class Runner:
         with contextlib.ExitStack() as stack:
             # every pooled handle is "in use by other readers": the load below opens a fresh handle,
             # whose first buffer fill starts at the record and runs on into the bytes behind `_pos`
-            for _ in range(min(8, self.pool_size(env))):
+            for _ in range(min(64, self.pool_size(env))):
                 stack.enter_context(env.fs._files.get())
             for oid in self.last_oids(env):
                 self.load1(env, oid)
@@ -583,12 +627,25 @@ class Runner:
         last = max(env.cur.values())
         return [o for o, t in env.cur.items() if t == last][:2]
 
-    def next_txn(self, env, scen_label):
-        """the next transaction begins (lock not leaked), commits and is readable"""
+    def load_fresh(self, env, oid):
+        """load(oid) through a reader handle opened just now (all pooled ones are held out)"""
+        import contextlib
+        if env.fs is None:
+            return self.load1(env, oid)
+        with contextlib.ExitStack() as stack:
+            for _ in range(min(64, self.pool_size(env))):
+                stack.enter_context(env.fs._files.get())
+            return self.load1(env, oid)
+
+    def next_txn(self, env, scen_label, fresh_only=False):
+        """the next transaction begins (lock not leaked), commits and is readable.
+        fresh_only: after a failure INSIDE tpc_abort the code never reached the point where it drops the
+        readers' buffers, so only a newly opened reader handle is required to see the new transaction
+        (a stale pooled handle is counted as an observation, not a violation)"""
         res = {}
         mark = len(self.lines)
         q0 = self.stats.get('err:Quota', 0)
-        loads0 = self.loads(env)
+        loads0 = {o: self.load_fresh(env, o) for o in sorted(env.oids)} if fresh_only else self.loads(env)
 
         def work():
             try:
@@ -620,7 +677,13 @@ class Runner:
             return False
         tid, stored = self.last_commit
         want = (stored[NEXT_OID][0], stored[NEXT_OID][1], tid)
-        got = self.load_each_handle(env, NEXT_OID)      # first of all: before any other read refills a buffer
+        if fresh_only:
+            pooled = self.load_each_handle(env, NEXT_OID)
+            if any(g != want for g in pooled):
+                self.count('observation:abort-fault-stale-pooled-reader')
+            got = [self.load_fresh(env, NEXT_OID)]
+        else:
+            got = self.load_each_handle(env, NEXT_OID)  # first of all: before any other read refills a buffer
         if any(g != want for g in got):
             self.violation('C05:next-txn-unreadable:%s:%s' % (env.kind, scen_label),
                            'the transaction following the aborted one committed, but load of its object '
@@ -628,7 +691,7 @@ class Runner:
                                [g for g in got if g != want][0], want))
             return False
         # ... and it committed NORMALLY: nothing but its own record changed
-        loads1 = self.loads(env)
+        loads1 = {o: self.load_fresh(env, o) for o in sorted(env.oids)} if fresh_only else self.loads(env)
         bad = [o for o in loads0 if o != NEXT_OID and loads0[o] != loads1.get(o)]
         if bad:
             self.violation('C05:next-txn-damaged-others:%s:%s' % (env.kind, scen_label),
@@ -664,6 +727,12 @@ class Runner:
             'disk' if any(p.startswith('dir') for p in parts) else 'query')
         if any('.blob' in p for p in parts):
             tag = 'blob'
+            if what_failed.startswith('victim undo') and 'err:IO' in what_failed:
+                self.violation('C05:undo-copy-fault-leaves-blob',
+                               '%s (I/O failure while BlobStorage.undo copied a blob file); after the mandated '
+                               'tpc_abort the never-committed copy is still in the blob directory: %s' % (
+                                   what_failed, '; '.join(parts[:3])))
+                return False
         self.violation('C05:trace-left:%s:%s:%s' % (tag, env.kind, scen_label),
                        '%s; after the mandated tpc_abort the storage differs from its state before '
                        'the transaction began: %s' % (what_failed, '; '.join(parts[:4])))
@@ -676,6 +745,8 @@ class Runner:
         label = fk if fk != 'raw' else 'raw'
         if fk == 'meta':
             label = 'meta%d' % failure['which']
+        if fk == 'abortfault':
+            label = 'abortfault:' + failure.get('variant', 'abort-trunc')
         self.executed.append(dict(type='scenario', victim=victim, failure=failure))
         if self.lock_held(env, 'before-' + label):
             return []
@@ -745,7 +816,7 @@ class Runner:
             blobs0, mut0 = env.blob_files(), mut_count()
             held0 = (env.inner._transaction is obj, env.inner._commit_lock.locked())
             fops = [['store', 1, 'cur', 4, 44]]
-            if env.kind in ('file', 'fileblob'):
+            if env.kind in ('file', 'fileblob', 'blobfile'):
                 fops.append(['delete', 1, 'cur'])
             if env.blobdir:
                 fops.append(['storeblob', 2, 'cur', 4, 45])
@@ -804,7 +875,8 @@ class Runner:
                 if r['out'] != 'ok':
                     state['failed'] = '%s #%d: %s' % (op[0], i + 1, r['out'])
                     break
-                nrec_ok[0] += 1
+                if op[0] != 'undo':
+                    nrec_ok[0] += 1          # records the MODEL has staged
                 if abort_at == i + 1:
                     break
             if not state['failed'] and fphase == 1:
@@ -822,11 +894,22 @@ class Runner:
                         finally:
                             probing[0] = False
                 rec.on_event = reader_hook if env.fs is not None else None
+                if fk == 'abortfault' and failure.get('variant') == 'vote-trunc':
+                    hits = []
+
+                    def double_fault(ev):
+                        # first data-file write of the vote fails, then the except path's truncate too
+                        if ev[1] == 'Data.fs' and ((ev[0] == 'write' and not hits) or ev[0] == 'trunc'):
+                            hits.append(ev[0])
+                            rec.fail_at = rec.nmut + 1
+                    rec.on_event = double_fault
+                    self.mute = True         # the model has no doubly failing vote
                 try:
                     r = self.call(env, 'vote', lambda: st.tpc_vote(obj), 'vote %d' % t, fault_k=fault_k_vote,
                                   label=label)
                 finally:
                     rec.on_event = None
+                    rec.fail_at = None if fk == 'abortfault' else rec.fail_at
                 if r['out'] == 'ok' and not (fk == 'foreign' and failure.get('commit')) and fk != 'finishfault':
                     self.reader_probe(env)       # a reader while the voted transaction waits for its finish
                 nd = sum(1 for ev in r['evs'] if ev[0] == 'write' and ev[1] == 'Data.fs')
@@ -845,6 +928,11 @@ class Runner:
             srec[1] = True
             self.nontrivial = True
         rec.fail_partial = 0
+        # ---- a raw operation of the ABORT ITSELF fails (or of the vote's except path): nothing can be
+        # restored then, but "blocks no one" still holds: the call raises, every commit lock is free, the
+        # next transaction begins, commits and is readable
+        if fk == 'abortfault':
+            return self.abort_fault(env, failure, state, obj, t, label, percall)
         # ---- finish-fault: the failure hits the status flip
         if fk == 'finishfault':
             if not state['voted']:
@@ -942,6 +1030,63 @@ class Runner:
             self.next_txn(env, label)
         return percall
 
+    def abort_fault(self, env, failure, state, obj, t, label, percall):
+        st, rec = env.st, env.rec
+        variant = failure.get('variant', 'abort-trunc')
+        label = 'abortfault:' + variant
+        fired = []
+        if variant == 'vote-trunc':
+            # the vote already ran with both faults armed (scenario); now the ordinary mandated abort
+            self.mute = True
+            r = self.call(env, 'abort', lambda: st.tpc_abort(obj), None, label=label)
+            raised = state['failed'] is not None and 'vote' in state['failed']
+            if r['out'] != 'ok':
+                self.violation('C05:abort-raised:%s:%s' % (env.kind, label),
+                               'the mandated tpc_abort after a failed vote raised ' + r['out'])
+        else:
+            want = ('trunc', 'Data.fs') if variant == 'abort-trunc' else ('remove', 'blobs')
+
+            def arm(ev):
+                if ev[0] == want[0] and str(ev[1]).startswith(want[1]) and not fired:
+                    fired.append(ev)
+                    rec.fail_at = rec.nmut + 1
+            rec.on_event = arm
+            filekind = env.kind in ('file', 'fileblob', 'blobfile') and variant == 'abort-trunc'
+            try:
+                if not filekind:
+                    self.mute = True
+                r = self.call(env, 'abort', lambda: st.tpc_abort(obj),
+                              'abortfault %d' % t if (filekind and state['voted']) else 'abort %d' % t, label=label)
+            finally:
+                rec.on_event = None
+                rec.fail_at = None
+            self.mute = True
+            raised = r['out'] != 'ok'
+        self.cleanup_blob_tmp(env)
+        env_dead_after = True
+        if not raised:
+            self.count('abortfault-not-fired:' + variant)        # nothing to fail (e.g. no vote, no blob)
+        else:
+            self.count('abortfault-fired:' + variant)
+            self.nontrivial = True
+            if self.scen:
+                self.scen[-1][1] = True
+        locks = [('storage', env.inner._commit_lock)]
+        if env.demo is not None:
+            locks.append(('DemoStorage', env.demo._commit_lock))
+        held = [n for n, l in locks if l.locked()]
+        if held:
+            env.dead = True
+            self.violation('C05:abort-fault-lock-leak:%s' % env.kind,
+                           'a raw operation of the abort itself failed (%s): tpc_abort raised %s and the %s '
+                           'commit lock is still held — the next tpc_begin blocks forever' % (
+                               variant, r['out'], ' and '.join(held)))
+            return percall
+        # blocks no one: the next transaction begins, commits, is readable and damages nothing
+        self.next_txn(env, label, fresh_only=True)
+        env.dead = env.dead or env_dead_after
+        return percall
+
     def finish_failure_checks(self, env, r, tid, label):
         f = env.fs
         env.dead = True
@@ -1001,14 +1146,15 @@ class Runner:
             scen.append(dict(kind='abort', at=i))
         scen.append(dict(kind='abort', at='vote'))
         for w in range(3):
-            if env.kind in ('file', 'fileblob', 'demofile') or w == 1:
+            if env.kind in ('file', 'fileblob', 'blobfile', 'demofile') or w == 1:
                 scen.append(dict(kind='meta', which=w, extra=rng.choice([0, 0, 1, 4000])))
         scen.append(dict(kind='conflict', at=rng.randrange(4)))
         if env.quota is not None:
             scen.append(dict(kind='quota'))
         for ph in (0, 1, 2):
             scen.append(dict(kind='foreign', phase=ph, commit=False))
-        scen.append(dict(kind='foreign', phase=rng.choice([1, 2]), commit=True))
+        if not any(o[0] == 'undo' for o in victim['ops']):      # (the model has no undo records to commit)
+            scen.append(dict(kind='foreign', phase=rng.choice([1, 2]), commit=True))
         for f in scen:
             if env.dead:
                 break
@@ -1058,9 +1204,9 @@ def gen_txn(rng, kind, oids, big=False):
         else:
             dlen = rng.choice([1, 2, 30, 100, 500, 4000])
         tag = rng.choice(safe_tags())
-        if kind in ('fileblob', 'blobmapping') and rng.random() < 0.35:
+        if kind in ('fileblob', 'blobmapping', 'blobfile') and rng.random() < 0.35:
             ops.append(['storeblob', oid, 'cur', dlen, tag])
-        elif kind in ('file', 'fileblob') and rng.random() < 0.12:
+        elif kind in ('file', 'fileblob', 'blobfile') and rng.random() < 0.12:
             ops.append(['delete', oid, 'cur'])
         else:
             ops.append(['store', oid, 'cur', dlen, tag])
@@ -1081,21 +1227,40 @@ def gen_case(rng, kind, thorough):
     size = 4
     for i in range(ncommit + 1):
         if i in vpos and nv < maxv:
-            v = gen_txn(rng, kind, oids, big=(rng.random() < 0.35 and kind in ('file', 'fileblob', 'demofile')))
+            v = gen_txn(rng, kind, oids, big=(rng.random() < 0.35 and kind in ('file', 'fileblob', 'blobfile',
+                                                                               'demofile')))
             v['d'] = min(v['d'], 300)
+            if kind == 'blobfile' and i > 0:
+                # undo of the transaction committed just before (it created or rewrote a blob), inside a
+                # two-phase commit that does not finish
+                others = [o for o in v['ops'] if o[0] == 'store' and o[1] not in (1, 2)][:1]
+                v['ops'] = rng.choice([[['undo', 'last']], [['undo', 'last']] + others, others + [['undo', 'last']]])
             steps.append(dict(type='sweep', victim=v))
             nv += 1
         if i < ncommit:
             txn = gen_txn(rng, kind, oids)
+            if kind == 'blobfile' and (i + 1) in vpos:
+                txn['ops'] = [['storeblob', rng.choice([1, 2]), 'cur', rng.choice([5, 300]), rng.choice(safe_tags())]] \
+                    + [o for o in txn['ops'] if o[0] == 'store' and o[1] not in (1, 2)][:1]
             steps.append(dict(type='commit', txn=txn))
     quota = None
     if kind in ('file', 'fileblob', 'demofile') and rng.random() < 0.5:
         quota = rng.choice([600000, 1000000, 2000000])
     r = rng.random()
-    if kind in ('file', 'fileblob') and r < 0.5:
+    if kind in ('file', 'fileblob', 'blobfile') and r < 0.35:
         v = gen_txn(rng, kind, oids)
         v['d'] = min(v['d'], 300)
         steps.append(dict(type='scenario', victim=v, failure=dict(kind='finishfault')))
+    elif kind in ('file', 'fileblob', 'blobfile', 'demofile', 'blobmapping') and r < 0.75:
+        v = gen_txn(rng, kind, oids)
+        v['d'] = min(v['d'], 300)
+        variants = ['abort-trunc', 'vote-trunc'] if kind != 'blobmapping' else []
+        if kind in ('fileblob', 'blobfile', 'blobmapping'):
+            variants.append('abort-remove')
+            v['ops'] = [['storeblob', 3, 'cur', 20, 77]] + [o for o in v['ops'] if o[0] != 'delete']
+        else:
+            v['ops'] = [o for o in v['ops'] if o[0] != 'delete'] or [['store', 1, 'cur', 5, 5]]
+        steps.append(dict(type='scenario', victim=v, failure=dict(kind='abortfault', variant=rng.choice(variants))))
     elif r > 0.85:
         v = gen_txn(rng, kind, oids)
         v['d'] = min(v['d'], 300)
@@ -1336,7 +1501,7 @@ def _work(args):
         import traceback
         return dict(idx=idx, infra='%r\n%s' % (e, traceback.format_exc()[-1500:]))
     return dict(idx=idx, stats=r.stats, scen=r.scen, violations=r.violations, executed=r.executed,
-                lines=r.lines, nontrivial=r.nontrivial)
+                lines=r.lines, nontrivial=r.nontrivial, known_hits=r.known_hits)
 
 
 _ctr = [0]
@@ -1370,11 +1535,12 @@ def main(argv=None):
         cases += load_corpus()
         n = 20 if not ck.thorough else 300
         for i in range(n):
-            kind = KINDS[i % len(KINDS)] if i >= 8 else ['file', 'fileblob', 'demofile', 'file',
+            kind = KINDS[i % len(KINDS)] if i >= 8 else ['file', 'fileblob', 'demofile', 'blobfile',
                                                          'blobmapping', 'fileblob', 'mapping', 'demomapping'][i]
             cases.append(gen_case(ck.rng, kind, ck.thorough))
     all_lines = []
     spans = []
+    KNOWN_OPEN[:] = [k['signature'] for k in ck.known if k.get('status', 'open') == 'open']
     jobs = [(ck.tmp, ck.seed, idx, case, ck.thorough) for idx, case in enumerate(cases)]
     if ck.thorough and len(jobs) > 8:
         import multiprocessing
@@ -1400,6 +1566,9 @@ def main(argv=None):
                                             model_lines=[l[0] for l in r.lines[-12:]]) if nt and j == 3 else None)
         if not r.scen:
             ck.case(canon, False)
+        for sig, what, at in r.known_hits[:3]:
+            ck.violation(sig, what, dict(kind=case['kind'], quota=case.get('quota'), base=case.get('base'),
+                                         steps=r.executed[:at + 1]))
         if r.violations:
             sig, what, at = r.violations[0]
             steps = r.executed[:at + 1]
@@ -1443,10 +1612,17 @@ def finish(ck):
                    'Mapping/File; every victim: count run, every raw-operation fault index (plus partial '
                    'writes), abort after begin / each store / vote, over-long user/description/extension, '
                    'conflict, quota, foreign-transaction calls at every phase (then abort, or then commit), '
-                   'finish fault, failing second resource manager through a Connection. A case counts as '
+                   'finish fault, a fault inside the abort itself (lock-free oracle), undo victims on '
+                   'BlobStorage(FileStorage), failing commits through a Connection. A case counts as '
                    'non-trivial when a fault hit after at least one raw write of the vote, or a failure / '
                    'abort at a begin / store / vote boundary was executed; distinct by hash of the case',
-              assumptions=['single injected fault per transaction (one-shot), not inside tpc_abort itself',
+              assumptions=['single injected fault per transaction (one-shot); faults inside tpc_abort itself (and the '
+                           'double fault write + except-path truncate) are checked against the weaker oracle '
+                           '"raises, locks free, next transaction commits and is readable by a new reader handle" '
+                           '— after them the readers\' pooled buffers are not dropped by the code (counted as '
+                           'observation:abort-fault-stale-pooled-reader)',
+                           'undo itself is C06\'s model: undo victims are compared with the model at the level '
+                           'of their begin / vote / abort envelope only',
                            'oid high-water mark, temp-file bytes, lock-file content and empty blob '
                            'directories are outside the property',
                            'conflict resolution is C10 (every serial mismatch here is unresolvable)',
